@@ -123,6 +123,13 @@ def opVerify (j : Json) : Except String Json := do
   | .ok () => return Json.mkObj [("ok", true)]
   | .error r => return Json.mkObj [("ok", false), ("rule", ruleName r)]
 
+def opSched (j : Json) : Except String Json := do
+  let periods ← j.getObjValAs? (Array Int) "periods"
+  let times ← j.getObjValAs? (Array Nat) "times"
+  let ps := periods.toList
+  let tr := Sched.run ps (Sched.init ps) times.toList
+  return Json.mkObj [("sent", Json.arr (tr.map fun row => Json.arr (row.map Json.bool).toArray).toArray)]
+
 def dispatch (j : Json) : Except String Json := do
   let op ← j.getObjValAs? String "op"
   match op with
@@ -130,6 +137,7 @@ def dispatch (j : Json) : Except String Json := do
   | "buf" => opBuf j
   | "layout" => opLayout j
   | "verify" => opVerify j
+  | "sched" => opSched j
   | _ => throw s!"unknown op {op}"
 
 partial def loop (hin : IO.FS.Stream) (hout : IO.FS.Stream) : IO Unit := do
